@@ -317,3 +317,45 @@ Definition send_mode (g : gate) : Z :=
     else if negb bud then sm_SendPacingLimited
     else sm_SendAny
   end.
+
+(** * Conn.triggerSending / sendPackets / sendPacketsWithoutGSO / resetPacingDeadline (connection.go),
+    after the handshake, no path/MTU probe due: a function of how many packets of data wait, whether a
+    received packet waits in the queue, the successive SendMode answers of the handler and its
+    TimeUntilSend answer. Result: packets sent, pacingDeadline, blocked mode, ACK-only attempts, and
+    the SendMode answers not consumed. *)
+Definition pace_deadline (tus : Z) : Z := if tus =? 0 then pg_deadlineSendImmediately else tus.
+
+(** the loop of sendPacketsWithoutGSO: one packet, then ask SendMode again *)
+Fixpoint pace_loop (fuel : nat) (avail : Z) (hasRecv : bool) (modes : list Z) (tus sent : Z) : Z * Z * list Z :=
+  match fuel with
+  | O => (sent, 0, modes)
+  | S f =>
+    if avail <=? 0 then (sent, 0, modes)                       (* errNothingToPack *)
+    else match modes with
+         | [] => (sent + 1, 0, [])
+         | m :: r =>
+           if m =? sm_SendPacingLimited then (sent + 1, pace_deadline tus, r)      (* resetPacingDeadline *)
+           else if negb (m =? sm_SendAny) then (sent + 1, 0, r)
+           else if hasRecv then (sent + 1, pg_deadlineSendImmediately, r)  (* receiving has priority *)
+           else pace_loop f (avail - 1) hasRecv r tus (sent + 1)
+         end
+  end.
+
+Record pace_result := { pr_sent : Z; pr_deadline : Z; pr_blocked : Z; pr_ackonly : Z; pr_rest : list Z; pr_ok : bool }.
+
+Definition trigger_sending (avail : Z) (hasRecv : bool) (modes : list Z) (tus : Z) : pace_result :=
+  match modes with
+  | [] => {| pr_sent := 0; pr_deadline := 0; pr_blocked := 0; pr_ackonly := 0; pr_rest := []; pr_ok := false |}
+  | m :: r =>
+    if m =? sm_SendAny then
+      let '(sent, dl, rest) := pace_loop (Z.to_nat avail + 1) avail hasRecv r tus 0 in
+      {| pr_sent := sent; pr_deadline := dl; pr_blocked := pg_blockModeNone; pr_ackonly := 0; pr_rest := rest; pr_ok := true |}
+    else if m =? sm_SendNone then
+      {| pr_sent := 0; pr_deadline := 0; pr_blocked := pg_blockModeHardBlocked; pr_ackonly := 0; pr_rest := r; pr_ok := true |}
+    else if m =? sm_SendPacingLimited then
+      {| pr_sent := 0; pr_deadline := pace_deadline tus; pr_blocked := pg_blockModeNone; pr_ackonly := 1; pr_rest := r; pr_ok := true |}
+    else if m =? sm_SendAck then
+      {| pr_sent := 0; pr_deadline := 0; pr_blocked := pg_blockModeCongestionLimited; pr_ackonly := 1; pr_rest := r; pr_ok := true |}
+    else (* PTO modes: sendProbePacket, not modelled *)
+      {| pr_sent := 0; pr_deadline := 0; pr_blocked := 0; pr_ackonly := 0; pr_rest := r; pr_ok := false |}
+  end.
